@@ -223,6 +223,9 @@ fn check_trace(log: &[(RefMsg, Option<RefMsg>)], own: u16, op: usize, items: &[V
         bad.push(("no_transfer_attempt", "no acknowledged transfer request in the log".into()));
     }
     rep.seen("attempts_per_call", attempts as u64);
+    if attempts > 3 {
+        bad.push(("more_than_three_attempts", format!("{} transfer attempts in one call", attempts)));
+    }
     bad
 }
 
@@ -274,7 +277,22 @@ fn run_case(c: &Case, rep: &mut Report) {
         b.swallowed_this_attempt = false;
     }
     let pages: Vec<Page<'static>> = c.pages.iter().map(|(w, h, b)| ctl::page_from_image(*w, *h, b.clone())).collect();
-    let out = ctl::run_op(&sign, &c.op, &pages);
+    // a third of the page lists reach send_pages as an adaptor iterator (a filter that keeps everything: its size_hint
+    // has a lower bound of 0) instead of a slice
+    let out = if c.op == Op::SendPages && fnv(c.sig().as_bytes()) % 3 == 0 {
+        rep.count("page_lists_passed_as_adaptor_iterators");
+        let r = crate::util::catch(std::panic::AssertUnwindSafe(|| sign.send_pages(pages.iter().filter(|p| p.width() < u32::MAX))));
+        match r {
+            Ok(Ok(flipdot::PageFlipStyle::Automatic)) => SignOut::OkStyle { automatic: true },
+            Ok(Ok(flipdot::PageFlipStyle::Manual)) => SignOut::OkStyle { automatic: false },
+            Ok(Err(flipdot::SignError::Bus { source })) => SignOut::Bus(source.to_string()),
+            Ok(Err(flipdot::SignError::UnexpectedResponse { expected, actual })) => SignOut::Protocol { expected, actual },
+            Ok(Err(other)) => SignOut::Bus(format!("unmatched SignError variant: {:?}", other)),
+            Err(p) => SignOut::Panic(format!("{} at {}", p.msg, crate::util::short_loc(&p.loc))),
+        }
+    } else {
+        ctl::run_op(&sign, &c.op, &pages)
+    };
     drop(sign);
     let log = std::mem::take(&mut tb.borrow_mut().log);
     let (xop, items): (usize, Vec<Vec<u8>>) = if c.op == Op::Configure { (O_RECV_CFG, vec![BLOCKS[c.ty].to_vec()]) } else { (O_RECV_PIX, c.pages.iter().map(|p| p.2.clone()).collect()) };
@@ -340,9 +358,25 @@ fn rand_image(rng: &mut Rng, w: u32, h: u32) -> Vec<u8> {
         }
     }
     let mut b = p.as_bytes().to_vec();
-    if rng.chance(1, 3) {
+    match rng.below(12) {
         // arbitrary contents (from_bytes accepts any bytes of the right length)
-        b = rng.bytes(b.len());
+        0..=3 => b = rng.bytes(b.len()),
+        // nothing but FF after the id (every chunk, the last one included, is all FF), nothing but 00
+        4 => {
+            let id = b[0];
+            b.fill(0xFF);
+            b[0] = id;
+        }
+        5 => b.fill(0x00),
+        // the last chunk all FF, the rest arbitrary
+        6 => {
+            let n = b.len();
+            b = rng.bytes(n);
+            for x in b[n.saturating_sub(16)..].iter_mut() {
+                *x = 0xFF;
+            }
+        }
+        _ => {}
     }
     b
 }
@@ -368,6 +402,15 @@ fn random_case(rng: &mut Rng, big_ok: bool) -> Case {
             };
             pages.push((w, h, rand_image(rng, w, h)));
         }
+        // the same page twice (or three times) in a row, in a fifth of the lists
+        if !pages.is_empty() && rng.chance(1, 5) {
+            let k = rng.usize(pages.len());
+            let dup = pages[k].clone();
+            pages.insert(k, dup.clone());
+            if rng.bool() {
+                pages.insert(k, dup);
+            }
+        }
         if pages.iter().any(|p| (p.0, p.1) != (TYPES[ty].w, TYPES[ty].h)) {
             label = "random_foreign_sizes";
         }
@@ -376,7 +419,12 @@ fn random_case(rng: &mut Rng, big_ok: bool) -> Case {
         let pconf = rng.chance(1, 3);
         let n = rng.usize(3);
         // often the very same pages again (a controller that remembers what it sent must still send it)
-        let ppages = if pconf { vec![] } else if rng.bool() && !pages.is_empty() { pages.clone() } else { (0..n).map(|_| (TYPES[ty].w, TYPES[ty].h, rand_image(rng, TYPES[ty].w, TYPES[ty].h))).collect() };
+        let ppages = if pconf {
+            vec![]
+        } else if rng.chance(1, 3) && !pages.is_empty() {
+            // same ids and sizes as the call under test, other pixels (the usual "update the text on page 1")
+            pages.iter().map(|(w, h, b)| { let mut o = rng.bytes(b.len()); o[0] = b[0]; (*w, *h, o) }).collect()
+        } else if rng.bool() && !pages.is_empty() { pages.clone() } else { (0..n).map(|_| (TYPES[ty].w, TYPES[ty].h, rand_image(rng, TYPES[ty].w, TYPES[ty].h))).collect() };
         Some((if pconf { Op::Configure } else { Op::SendPages }, ppages, *rng.pick(&[0usize, 0, 1, 3])))
     } else {
         None
@@ -457,6 +505,14 @@ pub fn run(ctx: &Ctx) -> Outcome {
             fixed.push(Case { ty, own: 3, op: Op::SendPages, pages, fail_attempts: usize::from(vs), virtual_sign: vs, auto: false, nack: None, prior: None, label: "transfer_around_65536_chunks" });
         }
     }
+    // a long transfer (630 / 900 chunks) to a sign that keeps failing it, and one that succeeds at the third attempt: the
+    // number of attempts does not grow with the size of what is being sent
+    for (ty, n_pages) in [(6usize, 30usize), (0, 60)] {
+        for (fail, vs) in [(9usize, false), (2, true), (9, true)] {
+            let pages = (0..n_pages).map(|_| (TYPES[ty].w, TYPES[ty].h, rand_image(&mut rng, TYPES[ty].w, TYPES[ty].h))).collect();
+            fixed.push(Case { ty, own: 3, op: Op::SendPages, pages, fail_attempts: fail, virtual_sign: vs, auto: false, nack: None, prior: None, label: "long_transfer_that_keeps_failing" });
+        }
+    }
     // the 16-bit offset limit: a 65 536-byte page (last offset 0xFFF0), alone and followed by a small page
     for fail in [0usize, 1] {
         let big = (65_532u32, 8u32, rand_image(&mut rng, 65_532, 8));
@@ -478,6 +534,7 @@ pub fn run(ctx: &Ctx) -> Outcome {
     let att = |k: u64| report.sets.get("attempts_per_call").map(|s| s.contains(&k)).unwrap_or(false);
     let floors = vec![
         floor("all fixed cases ran (11 types x 4 addresses x 0..3 failing attempts x 2 sign sides x 2 operations)", report.get("cases/configure_all_types") == 352 && report.get("cases/send_pages_all_types") == 352, report.get("cases/send_pages_all_types")),
+        floor("page lists handed over as adaptor iterators", report.get("page_lists_passed_as_adaptor_iterators") > 1000, report.get("page_lists_passed_as_adaptor_iterators")),
         floor("multi-page transfers", report.get("multi_page_transfers") > 0, report.get("multi_page_transfers")),
         floor("calls with 1, 2 and 3 attempts", att(1) && att(2) && att(3), report.set_len("attempts_per_call")),
         floor("a 65536-byte page (last offset 0xFFF0)", report.get("pages_of_65536_bytes") >= 3 && report.maxs.get("largest_chunk_offset").copied().unwrap_or(0.0) >= 65_520.0, report.get("pages_of_65536_bytes")),
@@ -485,6 +542,7 @@ pub fn run(ctx: &Ctx) -> Outcome {
         floor("unacknowledged requests on attempts 1, 2 and 3", report.get("cases/request_not_acknowledged") == 144 && report.get("unacknowledged_requests_seen") >= 144, report.get("unacknowledged_requests_seen")),
         floor("calls on a Sign object that has been used before (earlier call succeeded / gave up)", report.get("cases/same_sign_object_used_twice") == 770 && report.get("earlier_calls_succeeded") > 0 && report.get("earlier_calls_gave_up") > 0, report.get("earlier_calls_on_the_same_sign_object")),
         floor("transfers just below and above 65536 chunks", report.get("cases/transfer_around_65536_chunks") == 4 && report.maxs.get("largest_transfer_chunks").copied().unwrap_or(0.0) > 65_536.0, report.maxs.get("largest_transfer_chunks").copied().unwrap_or(0.0)),
+        floor("long transfers to a sign that keeps failing them", report.get("cases/long_transfer_that_keeps_failing") == 6, report.get("cases/long_transfer_that_keeps_failing")),
         floor("both succeeding and giving-up calls", report.get("calls_succeeded") > 0 && report.get("calls_gave_up") > 0, report.get("calls_gave_up")),
     ];
     Outcome {
